@@ -9,21 +9,7 @@ open CelmaVerif CelmaVerif.Keys
 
 /-! ### specification: what a destination holds after the evaluation -/
 
-/-- **The destination of an argument as a function of its own uses** (`vals`: the values of the uses
-    of this argument, in command-line order; `init`: the destination's value before the evaluation).
-    Not used: unchanged.  Flag: the value to set.  Int / string: the last value given.  List: the
-    initial content followed by all elements of all uses in order.  LevelCounter: increments and
-    assignments applied in order. -/
-def denote (d : ArgDef) (init : DVal) (vals : List Word) : DVal :=
-  match vals.getLast? with
-  | none => init
-  | some last =>
-    match d.kind with
-    | .flag => .flag d.flagValue
-    | .int => .int (castOr0 last)
-    | .str => .str last
-    | .vecInt => .vec (vecOf init ++ vals.flatMap (fun v => castAll (splitSep d.sep v)))
-    | .level => .level (vals.foldl levelStep (levelOf init))
+-- `denote` is defined in Model/ProgArgs/Spec.lean (the value constraints of `ObeysGlobals` use it)
 
 /-! ### `denote` step by step -/
 
